@@ -547,6 +547,86 @@ class Opaque:
         return (Opaque, ())
 
 
+def _helpers():
+    import pymbolic
+    from pymbolic.cse import tag_common_subexpressions
+    from pymbolic.mapper.flattener import flatten
+    from pymbolic.mapper.dependency import DependencyMapper
+    GL = p.cse_scope.GLOBAL
+    return [
+        ("wrap_in_cse(o, 'tmp')", lambda o: p.wrap_in_cse(o, "tmp")),
+        ("wrap_in_cse(o)", lambda o: p.wrap_in_cse(o)),
+        ("make_common_subexpression(o, 'tmp')", lambda o: p.make_common_subexpression(o, "tmp")),
+        ("make_common_subexpression(o)", lambda o: p.make_common_subexpression(o)),
+        ("make_common_subexpression(o, 'g', GLOBAL)", lambda o: p.make_common_subexpression(o, "g", GL)),
+        ("make_common_subexpression(array of o)",
+         lambda o: p.make_common_subexpression(__import__("pymbolic.geometric_algebra", fromlist=["x"])
+                                               .MultiVector({0: o, 1: o}), "mv")),
+        ("flattened_sum([o, o, 1])", lambda o: p.flattened_sum([o, o, 1])),
+        ("flattened_product([o, 2, o])", lambda o: p.flattened_product([o, 2, o])),
+        ("linear_combination", lambda o: pymbolic.linear_combination([2, 3], [o, o])),
+        ("quotient(o, 2)", lambda o: p.quotient(o, 2)),
+        ("substitute(o, {})", lambda o: pymbolic.substitute(o, {"zz_absent": 1})),
+        ("substitute(o, x=o)", lambda o: pymbolic.substitute(p.Sum((p.Variable("x"), o)), {"x": o})),
+        ("flatten(o)", flatten),
+        ("tag_common_subexpressions([o, o + 1])",
+         lambda o: tag_common_subexpressions([o, p.Sum((o, 1)), p.Product((o, o))])),
+        ("DependencyMapper()(o)", lambda o: DependencyMapper()(o)),
+        ("differentiate(o, 'x')", lambda o: pymbolic.differentiate(o, "x")),
+        ("o + 0, o * 1, o ** 1, -o", lambda o: (o + 0, o * 1, o ** 1, -o, 0 + o, 1 * o, o - 0, o / 1)),
+        ("o + o, o * o", lambda o: (o + o, o * o, o - o)),
+        ("rebuild from init args", lambda o: type(o)(*o.__getinitargs__())),
+        ("str / repr / hash", lambda o: (str(o), repr(o), hash(o))),
+    ]
+
+
+@check("C01.helpers")
+def c_helpers(ctx, case):
+    """The caller HOLDS the object (as a dict key, inside a bigger tree) and hands it to a library
+    helper.  Whatever the helper returns, the held object keeps its fields, its hash and its
+    equality class: still equal to its separately built twin, still found under it."""
+    (o, twin) = case
+    h0, k0 = hash(o), snapshot(o)
+    outer, outer_twin = p.Product((2, o)), p.Product((2, twin))
+    ho = hash(outer)
+    table = {o: "o", outer: "outer"}
+    for name, fn in _helpers():
+        ctx.case(None)
+        ctx.count("helper_calls")
+        try:
+            fn(o)
+        except RecursionError:
+            raise
+        except Exception:  # noqa: BLE001
+            ctx.count("helper_refused")     # (what the helper accepts is not this property's)
+        ok = _try(lambda: (snapshot(o) == k0, hash(o) == h0, o == twin, twin == o,
+                           hash(twin) == h0, table.get(twin) == "o", outer == outer_twin,
+                           hash(outer) == ho, table.get(outer_twin) == "outer"))
+        if ok != ("v", (True,) * 9):
+            ctx.fail("C01.helpers", case, f"held-object-changed:{type(o).__name__}:{name.split('(')[0]}",
+                     f"{name} with o = a held {type(o).__name__}: afterwards o is {G.src(o)} "
+                     f"(built as {G.src(twin)}); (same fields, same hash, o==twin, twin==o, twin hash, "
+                     f"found under twin, outer==outer twin, outer hash, outer found) = {ok}")
+            return
+
+
+def held_objects():
+    x, y = p.Variable("x"), p.Variable("y")
+    mk = [lambda: p.CommonSubexpression(p.Sum((x, y))),
+          lambda: p.CommonSubexpression(p.Sum((x, y)), "pre"),
+          lambda: p.CommonSubexpression(p.Sum((x, y)), None, p.cse_scope.GLOBAL),
+          lambda: p.CommonSubexpression(p.Sum((x, y)), None, p.cse_scope.EXPRESSION),
+          lambda: p.CommonSubexpression(p.CommonSubexpression(p.Product((x, y)))),
+          lambda: p.CommonSubexpression(x), lambda: p.CommonSubexpression(3),
+          lambda: p.Sum((x, y)), lambda: p.Product((x, y)), lambda: p.Sum((x,)), lambda: p.Product(()),
+          lambda: p.Sum((p.Sum((x, y)), 1)), lambda: p.Product((p.Product((x, 2)), y)),
+          lambda: p.Quotient(x, y), lambda: p.Power(x, 2), lambda: p.Subscript(x, (y, 1)),
+          lambda: p.Call(x, (y,)), lambda: p.Variable("x"), lambda: p.Lookup(x, "a"),
+          lambda: p.If(p.Comparison(x, "<", y), x, y), lambda: p.Derivative(p.Sum((x, y)), ("x",)),
+          lambda: p.Min((x, y)), lambda: p.FloorDiv(x, 2), lambda: p.Sum((0, x)), lambda: p.Product((1, x))]
+    return [(m(), m()) for m in mk]
+
+
 @check("C01.copyhash")
 def c_copyhash(ctx, case):
     """Hash look-ups interleaved with copies: whatever was cached on the original, a copy is
@@ -675,6 +755,20 @@ def workload(ctx):
             for b in wide:
                 ctx.run("C01.pair", (a, b))
             ctx.run("C01.immutable", a)
+    for i, (o, twin) in enumerate(held_objects()):
+        if ctx.mine("helpers"):
+            ctx.case(("held", i), True, n=0)
+            ctx.run("C01.helpers", (o, twin))
+    for i in range(ctx.per_shard(ctx.pick(60, 1200))):
+        r2 = ctx.sub_rng("held", i)
+        g2 = G.AnyGen(r2, hist=None)
+        o = g2.gen(r2.randint(1, 3))
+        if isinstance(o, p.Expression) and normal.is_expr_dataclass(type(o)):
+            try:
+                hash(o)
+            except TypeError:
+                continue
+            ctx.run("C01.helpers", (o, G.deep_rebuild(o)))
     nh = ctx.per_shard(ctx.pick(40, 800))
     for k in range(nh):
         case = (rng.randrange(10**9), ctx.pick(200, 300))
@@ -682,6 +776,7 @@ def workload(ctx):
             ctx.sample("history", f"pool seed {case[0]}, {case[1]} random ops from {OPS}")
         ctx.run("C01.history", case)
     ctx.floor("wide_nodes", 150)
+    ctx.floor("helper_calls", 800)
     ctx.floor("pairs", 50000)
     ctx.floor("equal_pairs", 1000)
     ctx.floor("unequal_pairs", 10000)
